@@ -34,7 +34,7 @@
 EXTENDS DelimDefs, TLC, Json, IOUtils
 
 CONSTANTS Mode,                  \* "gen" | "judge"
-          ProgFam,               \* which programs: "wide1" | "wide" | "sets" | "tags" | "dev"
+          ProgFam,               \* which programs: "short" | "wide1" | "wide" | "sets" | "kitchen" | "tags" | "dev"
           DSetFam,               \* which delimiter sets: "few" | "named" | "sweep2" | "sweep6" | "sampled" | "dot"
           SeedLo, SeedHi,        \* seeds of the sampled sets
           Unescaped,             \* deviation
@@ -43,6 +43,7 @@ CONSTANTS Mode,                  \* "gen" | "judge"
 LX == INSTANCE Lexer WITH RawUsesOpeningMarker <- FALSE, src <- <<>>, i <- 0, lstrip <- FALSE, out <- <<>>
 
 (* ---- programs of the Lexer family ------------------------------------------------------------ *)
+TextsOne == {<<" ", "x", " ">>}
 TextsA == {<<>>, <<" ", "x", " ">>}
 TextsB == {<<"x">>, <<" ", "x", " ">>, <<"\n", "x", "\n">>, <<" ">>}
 TextsC == {<<" ", "x", " ">>, <<"x", "\n">>}
@@ -103,8 +104,9 @@ TagProg(n) ==
                  exp |-> <<"[", "V", "]">>, err |-> FALSE]
     [] n = 4 -> [name |-> "rawcomment",
                  toks |-> <<T(<<"a">>), G(wRaw, F, F), T(aZ \o Sp \o aTagZ), G(wEndraw, F, F), T(<<"b">>), G(wComment, F, F), T(<<" ", "h", " ">>),
-                            G(wEndcomment, F, F), T(<<"c">>), G(wInline, F, F), T(<<"d">>)>>,
-                 exp |-> <<"a">> \o aZ \o Sp \o aTagZ \o <<"b", "c", "d">>, err |-> FALSE]
+                            G(wEndcomment, F, F), T(<<"c">>), G(wInline, F, F), T(<<"d">>), G(wDoc, F, F), T(<<" ", "h", " ">>), G(wEnddoc, F, F),
+                            T(<<"e">>)>>,
+                 exp |-> <<"a">> \o aZ \o Sp \o aTagZ \o <<"b", "c", "d", "e">>, err |-> FALSE]
     [] n = 5 -> [name |-> "liquidhash",
                  toks |-> <<T(<<"a">>), Q(<<Ln("tag", wAssignW), Ln("hash", wNote), Ln("tag", wEchoW)>>, F, F), T(<<"b">>)>>,
                  exp |-> <<"a", "2", "b">>, err |-> FALSE]
@@ -131,12 +133,14 @@ DS_sweep(shapes) == {Sweep(r, ci, sh) : r \in Roles, ci \in 1..Len(Alphabet), sh
 DS_sampled(lo, hi) == {Sampled(seed, 1 + (seed % 4), seed % 3 # 0) : seed \in lo..hi}
 
 (* the families the configurations name (zero-arity, so TLC evaluates the chosen one once) *)
-SomeShort == {x \in ShortSources : x[1].s = <<>> /\ x[3].s = <<" ", "x", " ">> /\ x[2].ll /\ ~x[2].lr}
+SomeShort == {x \in ShortSources : x[1].s = <<>> /\ x[3].s = <<" ", "x", " ">> /\ x[2].ll /\ ~x[2].lr /\ x[2].k \in {"doc", "short", "raw"}}
 Progs == CASE ProgFam = "wide1" -> LexProgs({1}) \cup ShortProgs({2, 3, 4})
            [] ProgFam = "wide" -> LexProgs({1, 2, 3, 4})
+           [] ProgFam = "short" -> ShortProgs({1, 2, 3, 4})
            [] ProgFam = "sets" -> KitchenProgs \cup {LexProg(src, 2) : src \in SomeShort}
+           [] ProgFam = "kitchen" -> {p \in TagProgs : p.name \in {"assigncapture", "rawcomment", "liquidmark"}}
            [] ProgFam = "tags" -> TagProgs
-           [] ProgFam = "dev" -> {p \in TagProgs : p.name = "rawalt"}
+           [] ProgFam = "dev" -> {p \in TagProgs : p.name = "assigncapture"}
            [] OTHER -> {}
 DotSet == WithRole(Angle, 3, <<".", "<">>)
 DSets == {x \in (CASE DSetFam = "few" -> DS_few
